@@ -46,6 +46,11 @@ type rotCfg struct {
 type faultAt struct {
 	At   int    `json:"at"`   // index of the call within the run
 	Mode string `json:"mode"` // before | after
+	// Fault sequence on the statement call At issues: every further attempt qryn makes at the
+	// same statement text (a re-issue inside the run, or the re-execution by a restart) fails
+	// again, K times in all (0 counts as 1); Persist: every attempt during the whole run fails.
+	K       int  `json:"k,omitempty"`
+	Persist bool `json:"persist,omitempty"`
 }
 
 type env struct {
@@ -326,9 +331,14 @@ type world struct {
 	e         env
 	conn      *fakech.CtrlConn
 	o         *evid.Obs
-	armed     *faultAt
+	armed     *faultAt // fault (sequence) in force, nil: none
 	armedRun  int
+	target    string // canonical text of the statement the sequence is on ("" until call At was seen)
+	targetQ   bool
+	failed    int // attempts failed so far
 	fired     *fakech.CtrlCall
+	firedN    int // faults fired in the current run
+	reissued  bool
 	pending   int // ALTERs applied in this run since the last marker write
 	betweenAM bool
 	markerErr error
@@ -337,14 +347,35 @@ type world struct {
 func newWorld(e env, cat *fakech.CtrlCatalog, o *evid.Obs) *world {
 	w := &world{e: e, conn: fakech.NewCtrlConnOn(cat), o: o}
 	w.conn.Decide = func(c *fakech.CtrlCall) fakech.CtrlFaultMode {
-		if w.armed == nil || c.Run != w.armedRun || c.Index != w.armed.At {
+		f := w.armed
+		if f == nil {
 			return fakech.CtrlNoFault
 		}
+		if w.target == "" {
+			if c.Run != w.armedRun || c.Index != f.At {
+				return fakech.CtrlNoFault
+			}
+			w.target, w.targetQ = fakech.CtrlCanon(c.SQL), c.Query
+		} else if w.targetQ != c.Query || w.target != fakech.CtrlCanon(c.SQL) {
+			return fakech.CtrlNoFault
+		}
+		if f.Persist {
+			if c.Run != w.armedRun {
+				return fakech.CtrlNoFault
+			}
+		} else if w.failed >= max(f.K, 1) {
+			return fakech.CtrlNoFault
+		}
+		w.failed++
+		if w.firedN > 0 {
+			w.reissued = true
+		}
+		w.firedN++
 		w.fired = c
-		if w.pending > 0 || (!c.Query && c.Stmt.Kind == "alter" && w.armed.Mode == "after") {
+		if w.pending > 0 || (!c.Query && c.Stmt.Kind == "alter" && f.Mode == "after") {
 			w.betweenAM = true
 		}
-		if w.armed.Mode == "after" {
+		if f.Mode == "after" {
 			return fakech.CtrlFailAfter
 		}
 		return fakech.CtrlFailBefore
@@ -367,9 +398,19 @@ func newWorld(e env, cat *fakech.CtrlCatalog, o *evid.Obs) *world {
 // and an error for violations that can be decided during the run.
 func (w *world) run(cfg rotCfg, f *faultAt) (ok bool, run int, verr error) {
 	run = w.conn.BeginRun()
-	w.armed, w.armedRun, w.fired, w.pending = f, run, nil, 0
+	w.armed, w.armedRun, w.target, w.failed = f, run, "", 0
+	return w.exec(cfg, run)
+}
+
+// restart executes one more Rotate with the fault sequence of the previous run still in force
+// (attempts at its statement keep failing until K is used up).
+func (w *world) restart(cfg rotCfg) (ok bool, run int, verr error) {
+	return w.exec(cfg, w.conn.BeginRun())
+}
+
+func (w *world) exec(cfg rotCfg, run int) (ok bool, _ int, verr error) {
+	w.fired, w.firedN, w.pending = nil, 0, 0
 	err := runRotate(w.conn, w.e, cfg)
-	w.armed = nil
 	if _, uq := w.conn.Unrecognised(); uq > 0 {
 		statMu.Lock()
 		unrecQueries += uq
@@ -386,9 +427,46 @@ func (w *world) run(cfg rotCfg, f *faultAt) (ok bool, run int, verr error) {
 		return false, run, fmt.Errorf("a run without any fault fails with configuration %s: %v (at: %s)", cfgStr(cfg), err, short(last.SQL))
 	}
 	if err == nil && w.fired != nil {
-		w.o.Tag("fault-swallowed")
+		// legitimate only if the statement was re-issued and succeeded within the run
+		w.o.Tag("success-after-fault-in-same-run")
+		if verr := neverSucceeded(w.conn.RunCalls(run)); verr != nil {
+			return false, run, verr
+		}
 	}
 	return err == nil, run, nil
+}
+
+// neverSucceeded: a run that reports success must not contain a statement all of whose
+// attempts in that run failed before taking effect.
+func neverSucceeded(calls []*fakech.CtrlCall) error {
+	type rec struct {
+		tries, ok int
+		first     *fakech.CtrlCall
+	}
+	seen := map[string]*rec{}
+	var order []string
+	for _, c := range calls {
+		if c.Query {
+			continue // a read has no effect; what the code does without its answer is judged by the state checks
+		}
+		k := fakech.CtrlCanon(c.SQL)
+		r := seen[k]
+		if r == nil {
+			r = &rec{first: c}
+			seen[k] = r
+			order = append(order, k)
+		}
+		r.tries++
+		if c.Applied {
+			r.ok++
+		}
+	}
+	for _, k := range order {
+		if r := seen[k]; r.ok == 0 {
+			return fmt.Errorf("the run reports success although %d attempt(s) at this statement all failed and it never took effect in the run: %s => %s", r.tries, short(r.first.SQL), r.first.Err)
+		}
+	}
+	return nil
 }
 
 var errDiscard = fmt.Errorf("c19-discard-query-not-modelled")
@@ -519,7 +597,9 @@ func predTransition0(c transCase, o *evid.Obs) error {
 		faults = []faultAt{*c.Fault}
 	} else {
 		for i := 0; i < n; i++ {
-			faults = append(faults, faultAt{i, "before"}, faultAt{i, "after"})
+			// single faults, and per call one consecutive-failure sequence and one persistent failure
+			faults = append(faults, faultAt{At: i, Mode: "before"}, faultAt{At: i, Mode: "after"},
+				faultAt{At: i, Mode: "before", K: 2 + i%4}, faultAt{At: i, Mode: []string{"before", "after"}[i%2], Persist: true})
 		}
 	}
 	for _, f := range faults {
@@ -536,23 +616,36 @@ func predTransition0(c transCase, o *evid.Obs) error {
 			o.Tag("fault-not-reached")
 			continue
 		}
-		o.Tag("fault:" + f.Mode + "@" + callClass(w.fired))
+		o.Tag("fault:"+f.Mode+"@"+callClass(w.fired), seqTag(f))
 		firedSQL := short(w.fired.SQL)
-		if !ok {
-			// the interrupted run is completed by the next
-			ok2, _, verr := w.run(c.To, nil)
+		// the interrupted run is completed by the next (by the first one the fault sequence lets through)
+		for restarts := 0; !ok; restarts++ {
+			if restarts >= max(f.K, 1)+2 {
+				return fmt.Errorf("after fault %s (%s) at call %d (%s): %d restarts do not complete the change", f.Mode, seqTag(f), f.At, firedSQL, restarts)
+			}
+			var verr error
+			ok, _, verr = w.restart(c.To)
 			if verr != nil {
-				return fmt.Errorf("restart after fault %s at call %d (%s): %v", f.Mode, f.At, firedSQL, verr)
+				return fmt.Errorf("restart %d after fault %s (%s) at call %d (%s): %v", restarts+1, f.Mode, seqTag(f), f.At, firedSQL, verr)
 			}
-			if !ok2 {
-				return fmt.Errorf("restart after fault fails")
-			}
+		}
+		if w.reissued {
+			o.Tag("seq:re-issued-in-same-run")
 		}
 		if err := w.settle(c.To, fmt.Sprintf("after fault %s at call %d (%s) and a restart", f.Mode, f.At, firedSQL)); err != nil {
 			return err
 		}
 	}
 	return nil
+}
+
+func seqTag(f faultAt) string {
+	switch {
+	case f.Persist:
+		return "seq:persist"
+	default:
+		return fmt.Sprintf("seq:k=%d", max(f.K, 1))
+	}
 }
 
 func callClass(c *fakech.CtrlCall) string {
@@ -666,7 +759,7 @@ func genTransition(rt *rapid.T) transCase {
 }
 
 func addTransition(r *evid.Run) {
-	evid.Add(r, evid.Prop[transCase]{Name: "change-all-faults", Quick: 300, Thorough: 1200, Gen: genTransition, Pred: predTransition})
+	evid.Add(r, evid.Prop[transCase]{Name: "change-all-faults", Quick: 120, Thorough: 800, Gen: genTransition, Pred: predTransition})
 }
 
 // Enumerated variant: fixed configuration changes × every call × {before, after}.
@@ -695,8 +788,13 @@ func enumerateTransitions(yield func(transCase)) {
 				// (1 read + 2 ALTERs per table + 1 write); faults beyond the end are "not reached"
 				for at := 0; at < 37; at++ {
 					for _, m := range []string{"before", "after"} {
+						for k := 1; k <= 5; k++ {
+							cc := c
+							cc.Fault = &faultAt{At: at, Mode: m, K: k}
+							yield(cc)
+						}
 						cc := c
-						cc.Fault = &faultAt{at, m}
+						cc.Fault = &faultAt{At: at, Mode: m, Persist: true}
 						yield(cc)
 					}
 				}
@@ -739,6 +837,13 @@ func genHistory(rt *rapid.T) histCase {
 		st := histStep{Cfg: cur}
 		if rapid.IntRange(0, 2).Draw(rt, "faulty") > 0 {
 			st.Fault = &faultAt{At: rapid.IntRange(0, 36).Draw(rt, "at"), Mode: rapid.SampledFrom([]string{"before", "after"}).Draw(rt, "fmode")}
+			// fault sequences inside this run: K consecutive attempts at the statement, or all of them
+			switch rapid.IntRange(0, 3).Draw(rt, "seqkind") {
+			case 0:
+				st.Fault.K = rapid.IntRange(2, 5).Draw(rt, "k")
+			case 1:
+				st.Fault.Persist = true
+			}
 		}
 		c.Steps = append(c.Steps, st)
 	}
@@ -798,7 +903,10 @@ func predHistory0(c histCase, o *evid.Obs) error {
 		if w.fired != nil {
 			fired++
 			desc += fmt.Sprintf(" fault %s at %s", w.fired.Fault, short(w.fired.SQL))
-			o.Tag("fault:" + string(w.fired.Fault) + "@" + callClass(w.fired))
+			o.Tag("fault:"+string(w.fired.Fault)+"@"+callClass(w.fired), seqTag(*s.Fault))
+			if w.reissued {
+				o.Tag("seq:re-issued-in-same-run")
+			}
 			if w.betweenAM && cfg.Policy != "" && len(cfg.Moves) > 0 {
 				o.NonTrivial()
 			}
